@@ -188,7 +188,7 @@ pub fn run(cfg: &Cfg) -> i32 {
     };
     println!("C10: {} rejected sources out of {} candidates", rejected.len(), cands.len());
     if rejected.len() < cands.len() / 3 {
-        machinery_error("vacuous: most rejected-source candidates build successfully");
+        vacuous("vacuous: most rejected-source candidates build successfully");
     }
 
     let n_apps = AtomicU64::new(0);
